@@ -352,3 +352,78 @@ def items_equal(a, b):
     if not conj:
         return True, None
     return (z3.And(*conj) if len(conj) > 1 else conj[0]), None
+
+
+# ---- record batches (magic 2), from the message-format section of the Kafka documentation --------
+def ite(cond, a, b):
+    if type(cond) is bool:
+        return a if cond else b
+    ae, al, ah = S.lift3(a)
+    be_, bl, bh = S.lift3(b)
+    return S.mk(z3.If(cond.e, ae, be_), min(al, bl), max(ah, bh))
+
+
+def zigzag_spec(n):
+    """zig-zag as the arithmetic definition: 2n for n >= 0, -2n-1 for n < 0"""
+    return ite(n >= 0, n * 2, n * -2 - 1)
+
+
+def svarint(n):
+    return uvarint(zigzag_spec(n))
+
+
+def vbytes(v):
+    if v is None:
+        return svarint(-1)
+    items, n = payload_items(v)
+    return svarint(n) + items
+
+
+def ms_floor(ts):
+    """whole milliseconds since the epoch (floor) of an aware datetime / DT model"""
+    return ms_of_datetime(ts)
+
+
+def record_items(r, base_ts, base_off):
+    body = be(r.attributes, 1, True) + svarint(ms_floor(r.timestamp) - base_ts) + svarint(r.offset - base_off) + vbytes(r.key) + vbytes(r.value) + svarint(len(r.headers))
+    for h in r.headers:
+        body = body + vbytes(h.key) + vbytes(h.value)
+    return svarint(SymBytes(body).sym_len()) + body
+
+
+def sym_max(values):
+    m = values[0]
+    for v in values[1:]:
+        m = ite(v > m, v, m)
+    return m
+
+
+def batch_items(nb, crc_fn):
+    """reference encoding of a NewRecordBatch-like object; crc_fn: items -> int | SymInt"""
+    recs = nb.records
+    base_off = recs[0].offset
+    mss = [ms_floor(r.timestamp) for r in recs]
+    base_ts = mss[0]
+    max_ts = sym_max(mss)
+    post = (be(nb.attributes, 2, True) + be(recs[-1].offset - base_off, 4, True) + be(base_ts, 8, True) + be(max_ts, 8, True) + be(nb.producer_id, 8, True)
+            + be(nb.producer_epoch, 2, True) + be(nb.base_sequence, 4, True) + be(len(recs), 4, True))
+    for r in recs:
+        post = post + record_items(r, base_ts, base_off)
+    crc = crc_fn(post)
+    n = SymBytes(post).sym_len()
+    return be(base_off, 8, True) + be(n + 9, 4, True) + be(nb.partition_leader_epoch, 4, True) + [2] + be(crc, 4, False) + post
+
+
+def full_batch_items(b, crc_fn=None, crc=None, magic=2):
+    """reference encoding of a complete (broker-side) batch given all header fields"""
+    post = (be(b["attributes"], 2, True) + be(b["last_offset_delta"], 4, True) + be(b["base_timestamp"], 8, True) + be(b["max_timestamp"], 8, True)
+            + be(b["producer_id"], 8, True) + be(b["producer_epoch"], 2, True) + be(b["base_sequence"], 4, True) + be(len(b["records"]), 4, True))
+    for r in b["records"]:
+        body = (be(r["attributes"], 1, True) + svarint(r["timestamp_delta"]) + svarint(r["offset_delta"]) + vbytes(r["key"]) + vbytes(r["value"])
+                + svarint(len(r["headers"])))
+        for hk, hv in r["headers"]:
+            body = body + vbytes(hk) + vbytes(hv)
+        post = post + svarint(SymBytes(body).sym_len()) + body
+    c = crc if crc is not None else crc_fn(post)
+    n = SymBytes(post).sym_len()
+    return be(b["base_offset"], 8, True) + be(n + 9, 4, True) + be(b["partition_leader_epoch"], 4, True) + [magic] + be(c, 4, False) + post, post
